@@ -260,6 +260,9 @@ def run(ctx: Check, tree: Tree) -> None:
     ctx.section(check_pool, ctx, tree)
     ctx.section(check_normalised, ctx, tree)
     ctx.section(check_convention, ctx, tree)
+    from .c05 import check_rotation_chain_order
+
+    ctx.section(check_rotation_chain_order, ctx, tree)  # interfering topologies with axis-angle alignment
     from .c02 import check_group_key
 
     ctx.section(check_group_key, ctx, tree)
